@@ -228,3 +228,54 @@ for _ph in [_pt]:   # the FromHeader_* harnesses are NOT registered: the inlined
     proofs.append(_ph)
     refuters[_ph.name] = refute_search
 
+
+
+# ---------------------------------------------------------------------------------------------
+# Baggage::Set / Delete for any number of members over an abstract KeyValueProperties (the boundary of C14's capacity proofs): "Set replaces an
+# existing key, Delete removes it, and neither changes the baggage they were called on"
+from . import c14 as _c14
+
+
+def _configure_bag(cfg):
+    _c14._configure_cap(cfg)
+    cfg.type_handlers.insert(0, lambda em, base, targs, name: (common.CT(em._ctype(targs[0]).base, em._ctype(targs[0]).ptr + 1)
+                                                               if base in ("nostd::shared_ptr", "shared_ptr") and targs and targs[0].strip().split("::")[-1] == "Baggage" else None))
+    cfg.ext_q["shared_ptr<baggage::Baggage>::operator->"] = lambda em, node, recv, args: em.expr(recv["node"] if isinstance(recv, dict) and recv.get("xc_is_ptr") else recv)
+    cfg.ext_q["Baggage::IsValidKey"] = lambda em, node, recv, args: "xc_IsValidKey(%s)" % em.expr(args[0])
+    cfg.ext_q["Baggage::IsValidValue"] = lambda em, node, recv, args: "xc_IsValidValue(%s)" % em.expr(args[0])
+    cfg.ext["new"] = lambda em, n: "xc_new_Baggage(%s)" % em.expr([c for c in n.get("inner", []) if c.get("kind") == "CXXConstructExpr"][-1]["inner"][0])
+
+
+BAG_POST = _c14.CAP_POST.replace("static TraceState xc_o_new_ts, xc_o_default_ts;", "static Baggage xc_o_new_b;").replace(
+    "static TraceState *xc_new_TraceState(unsigned long size) { g_alloc_calls++; g_alloc_size = size; xc_o_new_ts.kv_properties_ = &xc_o_new_kv; return &xc_o_new_ts; }",
+    "static Baggage *xc_new_Baggage(unsigned long size) { g_alloc_calls++; g_alloc_size = size; xc_o_new_b.kv_properties_ = &xc_o_new_kv; return &xc_o_new_b; }").replace(
+    "static TraceState *xc_TraceState_GetDefault_ptr(void) { g_default_calls++; return &xc_o_default_ts; }", "")
+BAG_REQ = "__CPROVER_requires(__CPROVER_is_fresh(self, sizeof(*self)) && g_n <= 100000 && (g_exists == 0 || g_exists == 1) && %s)\n"
+contracts_bag = {
+    "Baggage_Set": {"pre": BAG_REQ % "g_new_key == key.data_ && g_new_val == value.data_ && key.data_ != NULL && value.data_ != NULL && g_e_key.data_ != key.data_" +
+        "__CPROVER_assigns(CAP_GHOSTS, xc_o_new_b)\n"      # the baggage it is called on is not written
+        "__CPROVER_ensures(g_alloc_calls == 1 && g_alloc_size == g_n + 1 && g_walk_calls == 1)\n"
+        # a valid pair goes first; a walked member is copied exactly when it does not carry that key (Set replaces an existing key)
+        "__CPROVER_ensures((g_vk && g_vv) ==> (g_first_add_is_new == 1 && g_add_calls == 1UL + (g_same ? 0UL : 1UL)))\n"
+        # an invalid pair is not stored and the copy is unchanged
+        "__CPROVER_ensures(!(g_vk && g_vv) ==> (g_first_add_is_new == 0 && g_add_calls == 1UL))\n"},
+    "Baggage_Delete": {"pre": BAG_REQ % "1" +
+        "__CPROVER_assigns(CAP_GHOSTS, xc_o_new_b)\n"
+        "__CPROVER_ensures(g_alloc_calls == 1 && g_alloc_size == g_n && g_walk_calls == 1 && g_add_calls == (g_same ? 0UL : 1UL))\n"},
+}
+proofs_bag = [
+    Proof("Baggage_Set_shape", [("Baggage::Set", 2)], enforce="Baggage_Set", timeout=300,
+          desc="Set for ANY number of members: the pair goes first, an existing member with that key is left out (replaced), the original is not written (inductive step of the walk)"),
+    Proof("Baggage_Delete_shape", [("Baggage::Delete", 1)], enforce="Baggage_Delete", timeout=300,
+          desc="Delete for ANY number of members: exactly the given key is left out, the original is not written"),
+]
+for _p in proofs_bag:
+    _p.pre_c = _c14.CAP_PRE
+    _p.post_struct_c = BAG_POST
+    _p.spec_headers = ()
+    _p.force_records = ("nostd::string_view",)
+    _p.configure = _configure_bag
+    _p.own_config = True
+    _p.contracts = contracts_bag
+    refuters[_p.name] = refute_search
+proofs += proofs_bag
